@@ -18,6 +18,8 @@ mod utils;
 mod attr;
 mod deps;
 mod types;
+#[cfg(all(test, ts_rs_verif))]
+mod verif_hook;
 
 struct DerivedTS {
     crate_rename: Path,
